@@ -54,9 +54,9 @@ static int count_fds(void)
 
 /* ------------------------------------------------------------------ archives */
 
-static ab_arc ARCS[10];
+static ab_arc ARCS[12];
 static int NARCS;
-static int TRUNCATED_LAST[10];
+static int TRUNCATED_LAST[12];
 
 static void build_archives(void)
 {
@@ -122,6 +122,14 @@ static void build_archives(void)
 	ab_add(a, 2, 1, "-lhd-", "P/b/", "", NULL, 0, 0, 1, 040755, 1262304012);
 	ab_add(a, 2, 0, "-lh5-", "P/b/", "f2", NULL, 300, 22, 1, 0100600, 1262304000);
 	ab_add(a, 2, 0, "-lh0-", "P/", "z", NULL, 5, 23, 1, 0100644, 1262304000);
+	/* 9: two members, the end marker (a zero header-length byte; 22 zero bytes here), and a complete member behind it that must
+	 * never be handed out, however often the caller asks again after the end */
+	a = &ARCS[NARCS++]; ab_init(a, 1 << 18);
+	ab_add(a, 0, 0, "-lh0-", "", "FIRST.TXT", NULL, 30, 31, 0, 0, 0);
+	ab_add(a, 2, 0, "-lh5-", "", "second.txt", NULL, 500, 32, 1, 0100644, 1262304000);
+	ab_stub(a, 22, 0);
+	ab_add(a, 1, 0, "-lh0-", "", "ghost.txt", NULL, 10, 33, 0, 0, 0);
+	--a->nm;
 }
 
 /* ------------------------------------------------------------------ sandbox */
